@@ -14,6 +14,7 @@ EXPLANATION = ("Decided from MIR: (R1) in EntryStore::finalize every call that c
                "assignment of value ids and `finalized = true` comes last. The stored reference value for a given graph is not decided."
                " (R3 Word) Word::get evaluates the stored closure at every call: no memoised value in `get` nor as a field of Word."
                " Added later: (R5) a constructor given a Vow<EntryIdx> moves it whole into the entry; (R6) = C02-R1 for positions kept in signed columns; (R7) the transformation of the caller's values never evaluates a deferred word; (R1) no sort after a consumer. (R8) = C02-R16 for constant columns of references. (R9) the entry stores are finalised in declaration order.")
+EXPLANATION += ' Batch 11: (R10) EntryTrait::set_idx / get_idx are required methods and the Box<T> wrapper forwards every method of the trait.'
 ASSUMPTIONS = ["rayon par_iter_mut().enumerate() yields (position, element) pairs", "atomics with Relaxed ordering are read after the join of finalisation",
                "rustc MIR construction and trait resolution"]
 
@@ -280,7 +281,39 @@ def r9_stores_are_finalised_in_declaration_order(cx):
           "the entry stores are finalised in the order they were declared (walked from the back or reordered: %s)" % (back or "no"))
 
 
+def r10_every_entry_type_keeps_its_position(cx):
+    """'a reference resolves to the final position': the store tells each entry its position through EntryTrait::set_idx and
+    hands out EntryTrait::get_idx. Both are *required* methods (a default body would be a no-op / a cell nobody fills, and a
+    wrapper type would inherit it silently), and the wrapper impl the library itself provides (`Box<T>`) defines every
+    method of the trait and forwards these two to the entry it wraps."""
+    F = cx.F
+    tr = [t for t in F.traits if t["path"] == "creator::directory_pack::EntryTrait"]
+    if len(tr) != 1:
+        raise AnchorLost("trait creator::directory_pack::EntryTrait")
+    items = {it["name"]: it for it in tr[0]["items"] if it.get("kind") == "Fn"}
+    for m in ("set_idx", "get_idx"):
+        if m not in items:
+            raise AnchorLost("EntryTrait::%s" % m)
+        cx.ob("R10", "R10/EntryTrait.%s/required" % m, "fn" not in items[m], "src/creator/directory_pack/mod.rs (trait EntryTrait)",
+              "EntryTrait::%s has no default body: every entry type says where it keeps its position" % m)
+    ims = [im for im in F.impls_of("creator::directory_pack::EntryTrait") if im.get("trait_def") == "creator::directory_pack::EntryTrait"]
+    wrappers = [im for im in ims if re.match(r"^std::(boxed::Box|sync::Arc|rc::Rc)<|^&", im["self"])]
+    if not wrappers:
+        raise AnchorLost("impl EntryTrait for Box<T>")
+    for im in wrappers:
+        have = {it["name"]: it for it in im["items"]}
+        missing = sorted(set(items) - set(have))
+        fwd = True
+        for m in ("set_idx", "get_idx"):
+            fid = have.get(m, {}).get("fn")
+            g = F.fns[fid] if fid is not None and fid < len(F.fns) else None
+            fwd = fwd and g is not None and "blocks" in g and bool(F.body(g).calls(r"EntryTrait(<.*>)?>::%s$" % m))
+        cx.ob("R10", "R10/%s/forwards-every-method" % im["self"].split("::")[-1], not missing and fwd, "%s:%s (impl EntryTrait for %s)" % (im["file"], im["line"], im["self"]),
+              "the wrapper defines every method of EntryTrait (missing: %s) and forwards set_idx / get_idx to the wrapped entry (%s)" % (missing or "none", fwd))
+
+
 RULES = [
+    ("R10", r10_every_entry_type_keeps_its_position, 3),
     ("R9", r9_stores_are_finalised_in_declaration_order, 1),
     ("R8", r8_constant_reference_columns_keep_their_width, 2),
     ("R7", r7_deferred_words_stay_deferred, 1),
